@@ -1,16 +1,87 @@
 //go:build verif
 
-// Add-only export shim for property C34 (staking conservation): read-only access
-// to the IISS state of a simulator, so that the harness can read the stored
-// network totals (totalDelegation), P-Rep status/bonder lists of arbitrary
-// addresses and the unstaking/unbonding timer tables.
+// Add-only export shim for property C34 (staking conservation).
+//
+//   - VerifC34State: read-only access to the IISS state of a simulator, so that the
+//     harness can read the stored network totals (totalDelegation), P-Rep status /
+//     bonder lists of arbitrary addresses and the unstaking/unbonding timer tables.
+//   - VerifC34GoByBlockIssuing: simulatorImpl.GoByBlock with the base transaction
+//     handled by the real ExtensionStateImpl.OnBaseTx (ICX issue to the treasury +
+//     total supply, consensus info, reward fund transfer, network score timers)
+//     instead of HandleConsensusInfo alone.  Everything else is the block loop of
+//     GoByBlock, statement by statement.
 package icsim
 
 import (
+	"github.com/icon-project/goloop/icon/iiss"
 	"github.com/icon-project/goloop/icon/iiss/icstate"
+	"github.com/icon-project/goloop/module"
+	"github.com/icon-project/goloop/service/state"
 )
 
 // VerifC34State returns the (read-only) icstate.State of the last finalised block.
 func VerifC34State(sim Simulator) *icstate.State {
 	return sim.(*simulatorImpl).getReadonlyExtensionState().State
+}
+
+// VerifC34GoByBlockIssuing executes one block whose base transaction issues ICX.
+func VerifC34GoByBlockIssuing(s Simulator, csi module.ConsensusInfo, blk Block) ([]Receipt, error) {
+	sim := s.(*simulatorImpl)
+	var err error
+	var receipts []Receipt
+
+	size := 1
+	if blk != nil {
+		size += len(blk.Txs())
+	}
+	receipts = make([]Receipt, size)
+
+	wss := sim.wss
+	blockHeight := sim.blockHeight + 1
+	wc := NewWorldContext(newWorldState(wss, false), blockHeight, sim.Revision(), csi, sim.stepPrice)
+
+	if err = sim.onExecutionBegin(wc); err != nil {
+		return nil, err
+	}
+
+	// base transaction: the real handler of icon/iiss/base.go
+	{
+		cc := NewCallContext(wc, state.SystemAddress)
+		es := wc.GetExtensionState().(*iiss.ExtensionStateImpl)
+		err = es.OnBaseTx(cc, nil)
+		receipts[0] = NewReceipt(cc.BlockHeight(), err, cc.Events())
+		if err != nil {
+			return nil, err
+		}
+	}
+
+	if blk != nil {
+		for i, tx := range blk.Txs() {
+			wss = wc.GetSnapshot()
+			cc := NewCallContext(wc, tx.From())
+			err = sim.executeTx(cc, tx)
+			receipts[i+1] = NewReceipt(blockHeight, err, cc.Events())
+
+			if err != nil {
+				if err = wc.Reset(wss); err != nil {
+					return nil, err
+				}
+			}
+		}
+	}
+
+	if err = sim.onExecutionEnd(wc); err != nil {
+		return receipts, err
+	}
+
+	wss = wc.GetSnapshot()
+	if err = wss.Flush(); err != nil {
+		return receipts, err
+	}
+
+	sim.onFinalize(wss)
+
+	sim.wss = wss
+	sim.blockHeight = blockHeight
+	return receipts, nil
 }
